@@ -1,9 +1,10 @@
 /-
 C05 — shrink-to-fit widths (floats, inline-blocks): clauses (b) (the box fits its containing block) and
 (c) (min/max) on the model of `float_layout` / `inline_block_box_layout` (`Model/ShrinkFit.lean`).
-The two `_partial` theorems state what holds of the float code; `Witness/C05Shrink.lean` shows the
-hypotheses are necessary (known findings `float-explicit-width-ignores-min-max`,
-`float-shrink-to-fit-ignores-own-extras`).  Core Lean only.
+Since the repairs /repo 802b9d8 and 8719f13 (`fixed:` `float-explicit-width-ignores-min-max`,
+`float-shrink-to-fit-ignores-own-extras`) floats and inline-blocks have the same theorems, at full strength
+(`float_minmax`, `float_fits`, `float_eq_inline_block`); `Witness/C05Shrink.lean` keeps the two former
+counterexamples as regression theorems.  Core Lean only.
 -/
 import WpModel.Props.C05
 import WpModel.Model.ShrinkFit
@@ -52,8 +53,8 @@ theorem keepsSize_float (cbw minC maxC : Rat) : KeepsSize (floatWidthCore cbw mi
     simp only [hw, Except.ok.injEq] at h; subst h; exact hw
   bounds := by
     intro b b' h
-    unfold floatWidthCore at h
-    cases hw : b.w <;> simp only [hw, Except.ok.injEq] at h <;> subst h <;> exact ⟨rfl, rfl⟩
+    rcases b with ⟨ml, mr, pl, pr, bl, br, w', minW, maxW, posX, col⟩
+    cases ml <;> cases mr <;> cases w' <;> simp [floatWidthCore] at h <;> subst h <;> exact ⟨rfl, rfl⟩
 
 /-- (c) inline-blocks: the used width is within `min-width` / `max-width`, for every input. -/
 theorem inline_block_minmax (cbw minC maxC : Rat) (b r : ABox)
@@ -62,19 +63,28 @@ theorem inline_block_minmax (cbw minC maxC : Rat) (b r : ABox)
   obtain ⟨w, h1, h2, h3, _⟩ := minmax_width _ (keepsSize_inlineBlock cbw minC maxC) (zeroAutoMargins b) r h
   exact ⟨w, h1, h2, h3⟩
 
-/--
-Full statement (false of the code, `Witness.C05Shrink.float_ignores_max_width`):
-  `floatLayoutWidth cbw minC maxC b = .ok r → ∃ w, r.w = some w ∧ b.minW ≤ w ∧ (… → w ≤ max)`  for every `b`.
-(c) floats: within `min-width` / `max-width` **when the width is `auto`** — `float_layout` only calls the
-decorated `float_width` in that case. -/
-theorem float_minmax_partial (cbw minC maxC : Rat) (b r : ABox) (hauto : b.w = none)
+/-- (c) **floats: the used width is within `min-width` / `max-width`, for every input** — `auto` or
+specified width (full strength since /repo 802b9d8: `float_layout` always calls the decorated
+`float_width`; the former `float_minmax_partial` needed `width: auto`). -/
+theorem float_minmax (cbw minC maxC : Rat) (b r : ABox)
     (h : floatLayoutWidth cbw minC maxC b = .ok r) :
     ∃ w, r.w = some w ∧ b.minW ≤ w ∧ (∀ m, b.maxW = .fin m → b.minW ≤ m → w ≤ m) := by
-  unfold floatLayoutWidth at h
-  have : (zeroAutoMargins b).w = none := hauto
-  simp only [this] at h
   obtain ⟨w, h1, h2, h3, _⟩ := minmax_width _ (keepsSize_float cbw minC maxC) (zeroAutoMargins b) r h
   exact ⟨w, h1, h2, h3⟩
+
+/-- On a box whose margins are numbers (which `zeroAutoMargins` guarantees) the width functions of floats
+and of inline-blocks are the same function. -/
+theorem floatWidthCore_eq_inlineBlock (cbw minC maxC : Rat) (x : ABox) (l r : Rat)
+    (hl : x.ml = some l) (hr : x.mr = some r) :
+    floatWidthCore cbw minC maxC x = inlineBlockWidthCore cbw minC maxC x := by
+  rcases x with ⟨ml, mr, pl, pr, bl, br, w, minW, maxW, posX, col⟩
+  simp only at hl hr; subst hl hr
+  cases w
+  · simp only [floatWidthCore, inlineBlockWidthCore, Except.ok.injEq, ABox.mk.injEq, Option.some.injEq, and_true,
+      true_and]
+    congr 1
+    grind
+  · rfl
 
 /-- The passes of the wrapper around a function that only fills an `auto` width (on every box with the
 margins, paddings and borders of `b`): the result keeps them, and its width is the filled one,
@@ -92,14 +102,15 @@ private theorem fill_passes (f : ABox → Except BErr ABox) (fillW : Rat) (b r :
   simp only [Option.some.injEq] at hw1
   subst hw1
   rcases hmax with ⟨hlt, m, hm, h2⟩ | ⟨_, e2⟩
-  · have e := hf { ({ b with w := some fillW } : ABox) with w := some m, ml := b.ml, mr := b.mr } rfl rfl rfl rfl rfl rfl
+  · have e := hf { ({ b with w := some fillW } : ABox) with w := some m, ml := b.ml, mr := b.mr, posX := b.posX }
+      rfl rfl rfl rfl rfl rfl
     rw [e] at h2
     simp only [Except.ok.injEq] at h2
     subst h2
     simp only at hm hlt
     have hgt : m < fillW := by rw [hm] at hlt; simpa [Ext.ltRat] using hlt
     rcases hmin with ⟨_, h3⟩ | ⟨_, er⟩
-    · have e' := hf { ({ b with w := some m } : ABox) with w := some b.minW, ml := b.ml, mr := b.mr }
+    · have e' := hf { ({ b with w := some m } : ABox) with w := some b.minW, ml := b.ml, mr := b.mr, posX := b.posX }
         rfl rfl rfl rfl rfl rfl
       rw [e'] at h3
       simp only [Except.ok.injEq] at h3
@@ -109,8 +120,8 @@ private theorem fill_passes (f : ABox → Except BErr ABox) (fillW : Rat) (b r :
       exact ⟨rfl, rfl, rfl, rfl, rfl, rfl, Or.inr (Or.inr ⟨m, hm, rfl, hgt⟩)⟩
   · subst e2
     rcases hmin with ⟨_, h3⟩ | ⟨_, er⟩
-    · have e' := hf { ({ b with w := some fillW } : ABox) with w := some b.minW, ml := b.ml, mr := b.mr }
-        rfl rfl rfl rfl rfl rfl
+    · have e' := hf { ({ b with w := some fillW } : ABox) with
+          w := some b.minW, ml := b.ml, mr := b.mr, posX := b.posX } rfl rfl rfl rfl rfl rfl
       rw [e'] at h3
       simp only [Except.ok.injEq] at h3
       subst h3
@@ -146,29 +157,32 @@ theorem inline_block_fits (cbw minC maxC : Rat) (b r : ABox) (hauto : b.w = none
   rcases hw with hw | hw | ⟨m, _, hw, hlt⟩ <;>
     refine ⟨_, by simp only [outer?, e1, e2, hw]; rfl, ?_⟩ <;> rw [e3, e4, e5, e6] <;> grind
 
-/--
-Full statement (false of the code, `Witness.C05Shrink.float_overflows_with_padding`): the same as
-`inline_block_fits` for `floatLayoutWidth`.
-(b)(f) a float with `width: auto` fits its containing block **when it has no margins, borders or
-paddings of its own** — `float_width` passes the containing block width, not the available width. -/
-theorem float_fits_partial (cbw minC maxC : Rat) (b r : ABox) (hauto : b.w = none)
+/-- **The width part of `float_layout` is the width part of `inline_block_box_layout`**, for every input
+(CSS 2.1 §10.3.5 and §10.3.9 are the same rule; true of the code since /repo 802b9d8 + 8719f13). -/
+theorem float_eq_inline_block (cbw minC maxC : Rat) (b : ABox) :
+    floatLayoutWidth cbw minC maxC b = inlineBlockLayoutWidth cbw minC maxC b := by
+  unfold floatLayoutWidth inlineBlockLayoutWidth
+  -- every pass of the wrapper runs on a box with the computed (numeric) margins of `zeroAutoMargins b`
+  exact minmax_congr _ _ _ (fun x h1 h2 => floatWidthCore_eq_inlineBlock cbw minC maxC x _ _ h1 h2)
+
+/-- (b)(f) **a float with `width: auto` fits its containing block** under the hypotheses of
+`inline_block_fits` (full strength since /repo 8719f13; the former `float_fits_partial` needed the float
+to have no margins, borders or paddings of its own). -/
+theorem float_fits (cbw minC maxC : Rat) (b r : ABox) (hauto : b.w = none)
     (h : floatLayoutWidth cbw minC maxC b = .ok r)
-    (hextras : orZero b.ml + orZero b.mr + b.bl + b.br + b.pl + b.pr = 0)
-    (hminC : minC ≤ cbw) (hminW : b.minW ≤ cbw) :
+    (hminC : minC ≤ cbw - (orZero b.ml + orZero b.mr + b.bl + b.br + b.pl + b.pr))
+    (hminW : b.minW ≤ cbw - (orZero b.ml + orZero b.mr + b.bl + b.br + b.pl + b.pr)) :
     ∃ o, outer? r = some o ∧ o ≤ cbw := by
-  unfold floatLayoutWidth at h
-  have hz : (zeroAutoMargins b).w = none := hauto
-  simp only [hz] at h
-  have hf : ∀ x : ABox, x.ml = (zeroAutoMargins b).ml → x.mr = (zeroAutoMargins b).mr →
-      x.pl = (zeroAutoMargins b).pl → x.pr = (zeroAutoMargins b).pr → x.bl = (zeroAutoMargins b).bl →
-      x.br = (zeroAutoMargins b).br → floatWidthCore cbw minC maxC x = .ok (match x.w with
-      | none => { x with w := some (shrinkToFit minC maxC cbw) } | some _ => x) := by
-    intro x _ _ _ _ _ _; unfold floatWidthCore; cases x.w <;> rfl
-  obtain ⟨e1, e2, e3, e4, e5, e6, hw⟩ := fill_passes _ (shrinkToFit minC maxC cbw) (zeroAutoMargins b) r hz hf h
-  have hstf := shrinkToFit_le minC maxC cbw
-  simp only [zeroAutoMargins] at e1 e2 e3 e4 e5 e6 hw
-  rcases hw with hw | hw | ⟨m, _, hw, hlt⟩ <;>
-    refine ⟨_, by simp only [outer?, e1, e2, hw]; rfl, ?_⟩ <;> rw [e3, e4, e5, e6] <;> grind
+  rw [float_eq_inline_block] at h
+  exact inline_block_fits cbw minC maxC b r hauto h hminC hminW
+
+/-- Non-vacuity / regression: `float: left; padding: 0 10px` around a long text in a 100px block gets an
+80px content box (100px before the repair), margin box 100px. -/
+example : (match floatLayoutWidth 100 30 230
+      { ml := some 0, mr := some 0, pl := 10, pr := 10, bl := 0, br := 0, w := none, minW := 0, maxW := .inf,
+        posX := 0, isColumn := false } with
+    | .ok r => outer? r
+    | .error _ => none) = some 100 := by decide +kernel
 
 /-! ## the remaining functions of percent.py -/
 
